@@ -9,7 +9,13 @@ use std::collections::{BTreeMap, HashMap};
 verus! {
 
 // ---- D-types: opaque placeholders for types the unit never inspects --------------------------
-#[verifier::external_body] pub struct RuntimeType { x: usize }
+// the run-time type of sylt_common (real declaration)
+pub mod rt {
+    use super::*;
+    use std::collections::{BTreeMap, BTreeSet};
+//@ type sylt-common/src/ty.rs enum Type keep=- eq=none clone=ext
+}
+pub use rt::Type as RuntimeType;
 #[verifier::external_body] pub struct FileOrLib { x: usize }
 #[verifier::external_body] pub struct Path { x: usize }
 #[verifier::external_body] pub struct Error { x: usize }
@@ -387,6 +393,11 @@ impl Next for Prec {
 //@ end
 //@ fn sylt-parser/src/parser.rs parse_type
 //@   mode assumed
+//@   ret r
+//@   spec
+    // assumed: the only `Resolved` types parse_type builds are the seven primitive run-time types
+    ensures r is Ok ==> pt_ok(r->Ok_0.1),
+//@   endspec
 //@ end
 //@ fn sylt-parser/src/parser.rs is_capitalized
 //@   mode assumed
